@@ -22,8 +22,13 @@ class OPENQASM2Language(Language):
 
         source = "OPENQASM 2.0;\ninclude \"qelib1.inc\";\n"
         source += f'qreg q[{circuit.num_qudits}];\n'
+        gate_defs: list[str] = []
         for gate in circuit.gate_set:
-            source += gate.get_qasm_gate_def()
+            for gate_def in gate.get_qasm_gate_def().splitlines(True):
+                is_creg = gate_def.startswith('creg ')
+                if not is_creg or gate_def not in gate_defs:
+                    gate_defs.append(gate_def)
+        source += ''.join(gate_defs)
 
         for op in circuit:
             source += op.get_qasm()
